@@ -3,10 +3,14 @@ package main
 // C07: argument/result addresses vs the Go toolchain's stack layout.
 //
 // The generator builds Go types in its own small representation (c07ty), turns
-// them into go/types objects (directly, or by printing a `func(...)` expression
-// and handing it to gotypes.ParseSignature[InPackage]), drives the REAL
-// gotypes.Signature / Tuple / Component API along generated component paths
-// (valid and invalid), and writes request lines for the Lean driver drv_c07.
+// them into go/types objects (directly, by printing a `func(...)` expression
+// and handing it to gotypes.ParseSignature[InPackage], or by declaring the
+// function in a type-checked package and calling gotypes.LookupSignature),
+// drives the REAL gotypes.Signature / Tuple / Component API — for a quarter of
+// the signatures through the package-level build.Param/ParamIndex/Return/
+// ReturnIndex — along generated component paths (valid and invalid), and writes
+// request lines for the Lean driver drv_c07.  `-replay file` decodes request
+// lines (corpus, replay files) and runs the real code on the decoded inputs.
 
 import (
 	"fmt"
@@ -19,6 +23,7 @@ import (
 	"strconv"
 	"strings"
 
+	"github.com/mmcloughlin/avo/build"
 	"github.com/mmcloughlin/avo/gotypes"
 	"github.com/mmcloughlin/avo/ir"
 	"github.com/mmcloughlin/avo/printer"
@@ -34,11 +39,14 @@ const (
 	c07Array
 	c07Struct
 	c07Named
+	c07Alias // type name = elem (transparent like a defined type; a *types.Alias for go/types)
+	c07Other // interface / map / chan / func: no components, but part of the layout
 )
 
 type c07field struct {
-	name string
-	t    *c07ty
+	name     string
+	t        *c07ty
+	embedded bool // embedded field: name is the type's name
 }
 
 type c07ty struct {
@@ -47,7 +55,8 @@ type c07ty struct {
 	elem   *c07ty // ptr, slice, array, named(underlying)
 	n      int    // array length
 	fields []c07field
-	name   string // named
+	name   string // named, alias
+	other  string // eface iface map chan func
 	tt     types.Type
 }
 
@@ -107,14 +116,33 @@ func (t *c07ty) goType() types.Type {
 	case c07Struct:
 		var fs []*types.Var
 		for _, f := range t.fields {
-			fs = append(fs, types.NewField(token.NoPos, c07pkg, f.name, f.t.goType(), false))
+			fs = append(fs, types.NewField(token.NoPos, c07pkg, f.name, f.t.goType(), f.embedded))
 		}
 		t.tt = types.NewStruct(fs, nil)
 	case c07Named:
 		t.tt = types.NewNamed(types.NewTypeName(token.NoPos, c07pkg, t.name, nil), t.elem.goType(), nil)
+	case c07Alias:
+		t.tt = types.NewAlias(types.NewTypeName(token.NoPos, c07pkg, t.name, nil), t.elem.goType())
+	case c07Other:
+		switch t.other {
+		case "eface":
+			t.tt = types.NewInterfaceType(nil, nil).Complete()
+		case "iface":
+			m := types.NewFunc(token.NoPos, c07pkg, "M", types.NewSignatureType(nil, nil, nil, nil, nil, false))
+			t.tt = types.NewInterfaceType([]*types.Func{m}, nil).Complete()
+		case "map":
+			t.tt = types.NewMap(types.Typ[types.Int], types.Typ[types.String])
+		case "chan":
+			t.tt = types.NewChan(types.SendRecv, types.Typ[types.Int8])
+		case "func":
+			t.tt = types.NewSignatureType(nil, nil, nil, nil, nil, false)
+		}
 	}
 	return t.tt
 }
+
+var c07otherSrc = map[string]string{"eface": "interface{}", "iface": "interface{ M() }", "map": "map[int]string",
+	"chan": "chan int8", "func": "func()"}
 
 // toks renders the protocol encoding.
 func (t *c07ty) toks(out []string) []string {
@@ -135,6 +163,10 @@ func (t *c07ty) toks(out []string) []string {
 		return out
 	case c07Named:
 		return t.elem.toks(append(out, "n", t.name))
+	case c07Alias:
+		return t.elem.toks(append(out, "l", t.name))
+	case c07Other:
+		return append(out, "o", t.other)
 	}
 	return append(out, "?")
 }
@@ -153,17 +185,23 @@ func (t *c07ty) src() string {
 	case c07Struct:
 		var fs []string
 		for _, f := range t.fields {
-			fs = append(fs, f.name+" "+f.t.src())
+			if f.embedded {
+				fs = append(fs, f.t.src())
+			} else {
+				fs = append(fs, f.name+" "+f.t.src())
+			}
 		}
 		return "struct{" + strings.Join(fs, "; ") + "}"
-	case c07Named:
+	case c07Named, c07Alias:
 		return t.name
+	case c07Other:
+		return c07otherSrc[t.other]
 	}
 	return "?"
 }
 
 func (t *c07ty) under() *c07ty {
-	for t.kind == c07Named {
+	for t.kind == c07Named || t.kind == c07Alias {
 		t = t.elem
 	}
 	return t
@@ -178,7 +216,7 @@ func (t *c07ty) namedDecls(seen map[string]bool, out *[]*c07ty) {
 		for _, f := range t.fields {
 			f.t.namedDecls(seen, out)
 		}
-	case c07Named:
+	case c07Named, c07Alias:
 		if !seen[t.name] {
 			seen[t.name] = true
 			t.elem.namedDecls(seen, out)
@@ -191,7 +229,7 @@ func (t *c07ty) usesUnsafe() bool {
 	switch t.kind {
 	case c07Basic:
 		return t.basic == "uptr"
-	case c07Ptr, c07Slice, c07Array, c07Named:
+	case c07Ptr, c07Slice, c07Array, c07Named, c07Alias:
 		return t.elem.usesUnsafe()
 	case c07Struct:
 		for _, f := range t.fields {
@@ -221,8 +259,10 @@ func (t *c07ty) weight() int {
 			w += f.t.weight()
 		}
 		return w
-	case c07Named:
+	case c07Named, c07Alias:
 		return t.elem.weight()
+	case c07Other:
+		return 3
 	}
 	return 1
 }
@@ -261,7 +301,7 @@ func c07fromTypes(tt types.Type) (*c07ty, error) {
 			if err != nil {
 				return nil, err
 			}
-			t.fields = append(t.fields, c07field{u.Field(i).Name(), e})
+			t.fields = append(t.fields, c07field{u.Field(i).Name(), e, u.Field(i).Embedded()})
 		}
 		return t, nil
 	case *types.Named:
@@ -271,7 +311,22 @@ func c07fromTypes(tt types.Type) (*c07ty, error) {
 		}
 		return &c07ty{kind: c07Named, name: u.Obj().Name(), elem: e, tt: tt}, nil
 	case *types.Alias:
-		return c07fromTypes(types.Unalias(tt))
+		e, err := c07fromTypes(types.Unalias(tt))
+		if err != nil {
+			return nil, err
+		}
+		return &c07ty{kind: c07Alias, name: u.Obj().Name(), elem: e, tt: tt}, nil
+	case *types.Interface:
+		if u.NumMethods() == 0 {
+			return &c07ty{kind: c07Other, other: "eface", tt: tt}, nil
+		}
+		return &c07ty{kind: c07Other, other: "iface", tt: tt}, nil
+	case *types.Map:
+		return &c07ty{kind: c07Other, other: "map", tt: tt}, nil
+	case *types.Chan:
+		return &c07ty{kind: c07Other, other: "chan", tt: tt}, nil
+	case *types.Signature:
+		return &c07ty{kind: c07Other, other: "func", tt: tt}, nil
 	}
 	return nil, fmt.Errorf("unsupported type %s", tt)
 }
@@ -293,6 +348,8 @@ type c07sig struct {
 	pgroups, rgroups []c07group
 	route           string // how the gotypes.Signature was built
 	real            *gotypes.Signature
+	variadic        bool           // the last parameter is `...T` (its type here is the slice []T)
+	bctx            *build.Context // route "build": selection through build.Param/ParamIndex/Return/ReturnIndex
 }
 
 func c07grouping(r *rng, vs []c07var) []c07group {
@@ -327,13 +384,17 @@ func (s *c07sig) toks() string {
 	return strings.Join(c07groupToks(s.rgroups, c07groupToks(s.pgroups, nil)), " ")
 }
 
-func c07groupSrc(gs []c07group) string {
+func c07groupSrc(gs []c07group, variadic bool) string {
 	var parts []string
-	for _, g := range gs {
+	for i, g := range gs {
+		ts := g.t.src()
+		if variadic && i == len(gs)-1 {
+			ts = "..." + g.t.elem.src()
+		}
 		if len(g.names) == 0 {
-			parts = append(parts, g.t.src())
+			parts = append(parts, ts)
 		} else {
-			parts = append(parts, strings.Join(g.names, ", ")+" "+g.t.src())
+			parts = append(parts, strings.Join(g.names, ", ")+" "+ts)
 		}
 	}
 	return strings.Join(parts, ", ")
@@ -341,9 +402,9 @@ func c07groupSrc(gs []c07group) string {
 
 // src renders `(params) (results)` as Go source.
 func (s *c07sig) src() string {
-	out := "(" + c07groupSrc(s.pgroups) + ")"
+	out := "(" + c07groupSrc(s.pgroups, s.variadic) + ")"
 	if len(s.rgroups) > 0 {
-		out += " (" + c07groupSrc(s.rgroups) + ")"
+		out += " (" + c07groupSrc(s.rgroups, false) + ")"
 	}
 	return out
 }
@@ -385,7 +446,11 @@ func c07declSrc(pkgname string, decls []*c07ty, unsafe bool) string {
 		b.WriteString("import \"unsafe\"\n\nvar _ unsafe.Pointer\n\n")
 	}
 	for _, d := range decls {
-		b.WriteString("type " + d.name + " " + d.elem.src() + "\n")
+		if d.kind == c07Alias {
+			b.WriteString("type " + d.name + " = " + d.elem.src() + "\n")
+		} else {
+			b.WriteString("type " + d.name + " " + d.elem.src() + "\n")
+		}
 	}
 	return b.String()
 }
@@ -399,18 +464,45 @@ func (s *c07sig) buildDirect() *gotypes.Signature {
 		}
 		return types.NewTuple(xs...)
 	}
-	return gotypes.NewSignature(c07pkg, types.NewSignatureType(nil, nil, nil, mk(s.params), mk(s.results), false))
+	return gotypes.NewSignature(c07pkg, types.NewSignatureType(nil, nil, nil, mk(s.params), mk(s.results), s.variadic))
 }
 
-// build constructs the real gotypes.Signature by one of three routes.
+// checkDecls type-checks a package declaring the named types (and, with fn, a
+// body-less function of the signature).
+func (s *c07sig) checkDecls(fn string) (*types.Package, error) {
+	src := c07declSrc("c07gen", s.decls(), s.usesUnsafe())
+	if fn != "" {
+		src += "\nfunc " + fn + s.src() + "\n"
+	}
+	fset := token.NewFileSet()
+	f, err := parser.ParseFile(fset, "decl.go", src, 0)
+	if err != nil {
+		return nil, fmt.Errorf("%v in\n%s", err, src)
+	}
+	conf := types.Config{Importer: importer.Default()}
+	pkg, err := conf.Check("example.com/c07gen", fset, []*ast.File{f}, nil)
+	if err != nil {
+		return nil, fmt.Errorf("typecheck decls: %v in\n%s", err, src)
+	}
+	return pkg, nil
+}
+
+// build constructs the real gotypes.Signature by one of several routes:
+// go/types objects built here, ParseSignature, ParseSignatureInPackage,
+// LookupSignature (what build.Implement calls) on a type-checked package
+// declaring the function, NewSignatureVoid; and optionally installs it in a
+// build.Context so that components are selected through build.Param etc.
 func (s *c07sig) build(r *rng) error {
-	route := r.intn(3)
+	route := r.intn(4)
 	decls := s.decls()
-	if s.usesUnsafe() {
-		route = 0 // `unsafe` is not visible to types.Eval at package scope
+	if s.usesUnsafe() && (route == 1 || route == 2) {
+		route = pick(r, []int{0, 3}) // `unsafe` is not visible to types.Eval at package scope
 	}
 	if route == 1 && len(decls) > 0 {
 		route = 2
+	}
+	if len(s.params) == 0 && len(s.results) == 0 && r.chance(1, 2) {
+		route = 4
 	}
 	switch route {
 	case 0: // go/types objects built directly
@@ -423,21 +515,34 @@ func (s *c07sig) build(r *rng) error {
 		}
 		s.real, s.route = sig, "parse"
 	case 2: // expression in a type-checked package declaring the named types
-		fset := token.NewFileSet()
-		f, err := parser.ParseFile(fset, "decl.go", c07declSrc("c07gen", decls, s.usesUnsafe()), 0)
+		pkg, err := s.checkDecls("")
 		if err != nil {
 			return err
-		}
-		conf := types.Config{Importer: importer.Default()}
-		pkg, err := conf.Check("example.com/c07gen", fset, []*ast.File{f}, nil)
-		if err != nil {
-			return fmt.Errorf("typecheck decls: %v", err)
 		}
 		sig, err := gotypes.ParseSignatureInPackage(pkg, "func"+s.src())
 		if err != nil {
 			return fmt.Errorf("ParseSignatureInPackage(%q): %v", "func"+s.src(), err)
 		}
 		s.real, s.route = sig, "parse-in-package"
+	case 3: // a function declared in a type-checked package, found by name (build.Implement's route)
+		pkg, err := s.checkDecls("Fn")
+		if err != nil {
+			return err
+		}
+		sig, err := gotypes.LookupSignature(pkg, "Fn")
+		if err != nil {
+			return fmt.Errorf("LookupSignature: %v", err)
+		}
+		s.real, s.route = sig, "lookup"
+	case 4:
+		s.real, s.route = gotypes.NewSignatureVoid(), "void"
+	}
+	if r.chance(1, 4) {
+		c := build.NewContext()
+		c.Function("Fn")
+		c.Signature(s.real)
+		s.bctx = c
+		s.route += "+build"
 	}
 	return nil
 }
@@ -463,6 +568,8 @@ func (g *c07gen) ty(depth int, budget int) *c07ty {
 	var t *c07ty
 	c := g.r.intn(100)
 	switch {
+	case c < 3:
+		t = &c07ty{kind: c07Other, other: pick(g.r, []string{"eface", "iface", "map", "chan", "func"})}
 	case depth <= 0 || budget < 8 || c < 38:
 		t = g.basic()
 	case c < 46:
@@ -478,6 +585,13 @@ func (g *c07gen) ty(depth int, budget int) *c07ty {
 		if n > 0 {
 			per = budget / n
 		}
+		if budget >= 100 && g.r.chance(1, 6) {
+			// more than 255 / 999 elements (three- and four-digit name suffixes, offsets beyond 16 bits with 8-byte
+			// elements); small elements keep the component table small
+			n = pick(g.r, []int{256, 257, 300, 1000, 1001, 1100, g.r.rangeIn(258, 1200)})
+			per = 0
+			g.stats["gen_big_arrays"]++
+		}
 		t = &c07ty{kind: c07Array, n: n, elem: g.ty(depth-1, per)}
 	default:
 		nf := pick(g.r, []int{0, 1, 1, 2, 2, 3, 3, 4, 5, 6})
@@ -490,23 +604,50 @@ func (g *c07gen) ty(depth int, budget int) *c07ty {
 			}
 			used[name] = true
 			var ft *c07ty
+			embedded := false
 			switch {
 			case g.r.chance(1, 7): // zero-size field (trailing or not)
 				ft = pick(g.r, []*c07ty{
 					{kind: c07Struct},
 					{kind: c07Array, n: 0, elem: g.basic()},
 					{kind: c07Array, n: g.r.intn(3), elem: &c07ty{kind: c07Struct}},
-					{kind: c07Struct, fields: []c07field{{"e", &c07ty{kind: c07Struct}}}},
+					{kind: c07Struct, fields: []c07field{{"e", &c07ty{kind: c07Struct}, false}}},
 				})
+			case g.r.chance(1, 8): // embedded field: a defined or alias type (or a pointer to a defined struct type)
+				g.nnamed++
+				tn := "E" + itoa(g.nnamed)
+				inner := g.ty(depth-1, budget/(nf+1))
+				for inner.kind == c07Ptr || inner.kind == c07Other || inner.kind == c07Named || inner.kind == c07Alias {
+					inner = g.basic() // `type E *T` / interfaces cannot be embedded this way; keep it simple
+				}
+				if inner.kind == c07Basic && inner.basic == "uptr" {
+					inner = &c07ty{kind: c07Basic, basic: "int64"} // an embedded field cannot be unsafe.Pointer
+				}
+				kind := c07Named
+				if g.r.chance(1, 3) {
+					kind = c07Alias
+					g.stats["gen_alias_types"]++
+				}
+				ft = &c07ty{kind: kind, name: tn, elem: inner}
+				if kind == c07Named && g.r.chance(1, 3) {
+					ft = &c07ty{kind: c07Ptr, elem: ft}
+				}
+				name, embedded = tn, true
+				g.stats["gen_embedded_fields"]++
 			default:
 				ft = g.ty(depth-1, budget/(nf+1))
 			}
-			t.fields = append(t.fields, c07field{name, ft})
+			t.fields = append(t.fields, c07field{name, ft, embedded})
 		}
 	}
-	if depth > 0 && g.r.chance(1, 9) {
+	if depth > 0 && g.r.chance(1, 7) {
 		g.nnamed++
-		t = &c07ty{kind: c07Named, name: "T" + itoa(g.nnamed), elem: t}
+		if g.r.chance(1, 3) {
+			t = &c07ty{kind: c07Alias, name: "A" + itoa(g.nnamed), elem: t}
+			g.stats["gen_alias_types"]++
+		} else {
+			t = &c07ty{kind: c07Named, name: "T" + itoa(g.nnamed), elem: t}
+		}
 	}
 	return t
 }
@@ -547,14 +688,23 @@ func (g *c07gen) tuple(n int, named int, budget int) []c07var {
 
 func (g *c07gen) sig() *c07sig {
 	s := &c07sig{}
-	np := pick(g.r, []int{0, 1, 1, 2, 2, 3, 3, 4, 5, 6})
-	nr := pick(g.r, []int{0, 0, 1, 1, 1, 2, 3})
+	// more than 10 variables: default names arg10.., ret10.. have two-digit indices
+	np := pick(g.r, []int{0, 1, 1, 2, 2, 3, 3, 4, 5, 6, 7, 11, 13})
+	nr := pick(g.r, []int{0, 0, 1, 1, 1, 2, 3, 3, 12})
 	budget := 120
+	if np > 6 || nr > 6 {
+		budget = 24
+	}
 	pn := 0
 	if g.r.chance(2, 3) {
 		pn = 1
 	}
 	s.params = g.tuple(np, pn, budget)
+	if np > 0 && g.r.chance(1, 8) {
+		// variadic: the last parameter is `...T`, a slice for the layout
+		s.variadic = true
+		s.params[np-1].t = &c07ty{kind: c07Slice, elem: g.ty(1, 16)}
+	}
 	rn := 0
 	if g.r.chance(1, 2) {
 		rn = 1
@@ -595,7 +745,10 @@ func (s c07step) tok() string {
 	return s.kind
 }
 
-var c07regs = []reg.Register{reg.RAX, reg.RBX, reg.RCX, reg.RDX, reg.RSI, reg.RDI, reg.R8, reg.R9, reg.R15}
+// registers handed to Dereference: every 64-bit general-purpose register that can hold a pointer, and a few
+// registers of other widths/kinds (Dereference takes any reg.Register; the address must echo exactly that one)
+var c07regs = []reg.Register{reg.RAX, reg.RBX, reg.RCX, reg.RDX, reg.RSI, reg.RDI, reg.RBP, reg.R8, reg.R9, reg.R10,
+	reg.R11, reg.R12, reg.R13, reg.R14, reg.R15, reg.RAX, reg.RBX, reg.RSI, reg.R8, reg.AL, reg.X0, reg.Y3}
 
 func c07regByName(n string) reg.Register {
 	for _, r := range c07regs {
@@ -603,7 +756,7 @@ func c07regByName(n string) reg.Register {
 			return r
 		}
 	}
-	return reg.RAX
+	panic("c07: unknown register " + n)
 }
 
 // apply drives the real Component API.
@@ -690,7 +843,9 @@ func c07walk(t *c07ty, path []c07step) *c07ty {
 	return t
 }
 
+// isScalar: the underlying type is a pointer or a basic non-string non-complex kind.
 func (t *c07ty) isScalar() bool {
+	t = t.under()
 	return t.kind == c07Ptr || (t.kind == c07Basic && t.basic != "string" && t.basic != "complex64" && t.basic != "complex128")
 }
 
@@ -737,6 +892,13 @@ func (g *c07gen) paths(t *c07ty, prefix []c07step, derefs int, out *[][]c07step)
 			idx[0], idx[1], idx[u.n-1], idx[u.n-2] = true, true, true, true
 			idx[g.r.intn(u.n)] = true
 			idx[9+g.r.intn(3)] = u.n > 12 // two-digit suffix
+			if u.n > 256 {
+				// around the 8-bit boundary, three/four digits
+				idx[255], idx[256] = true, true
+				idx[256+g.r.intn(u.n-256)] = true
+				idx[99+g.r.intn(3)] = true
+				idx[999+g.r.intn(3)] = u.n > 1001
+			}
 		}
 		var is []int
 		for i, ok := range idx {
@@ -765,7 +927,7 @@ func (g *c07gen) badSteps(t *c07ty) []c07step {
 	u := t.under()
 	var out []c07step
 	all := []c07step{{kind: "base"}, {kind: "len"}, {kind: "cap"}, {kind: "real"}, {kind: "imag"},
-		{kind: "i", i: 0}, {kind: "f", name: "a"}, {kind: "d", name: "RAX"}}
+		{kind: "i", i: 0}, {kind: "f", name: "a"}, {kind: "d", name: "AX"}}
 	for _, s := range all {
 		if c07walk(t, []c07step{s}) == nil {
 			out = append(out, s)
@@ -838,17 +1000,33 @@ func (s c07sel) toks() string {
 }
 
 // run selects the variable through the real Tuple API, applies the path.
-func c07run(sig *gotypes.Signature, sel c07sel, path []c07step) (res, text string) {
+func c07run(sig *gotypes.Signature, bctx *build.Context, sel c07sel, path []c07step) (res, text string) {
 	defer func() {
 		if e := recover(); e != nil {
 			res, text = "panic", ""
 		}
 	}()
+	var c gotypes.Component
+	if bctx != nil {
+		// the package-level build functions on a context of our own
+		old := build.VerifSwapContext(bctx)
+		defer build.VerifSwapContext(old)
+		switch {
+		case sel.isRet && sel.at:
+			c = build.ReturnIndex(sel.i)
+		case sel.isRet:
+			c = build.Return(sel.name)
+		case sel.at:
+			c = build.ParamIndex(sel.i)
+		default:
+			c = build.Param(sel.name)
+		}
+		return c07outcome(c07apply(c, path))
+	}
 	t := sig.Params()
 	if sel.isRet {
 		t = sig.Results()
 	}
-	var c gotypes.Component
 	if sel.at {
 		c = t.At(sel.i)
 	} else {
@@ -863,6 +1041,24 @@ func c07pathToks(path []c07step) string {
 		parts = append(parts, s.tok())
 	}
 	return strings.Join(parts, " ")
+}
+
+// isDefaultName: the name is the toolchain's default name (arg, arg1, …, ret, ret1, …) of an unnamed variable.
+func (s *c07sig) isDefaultName(sel c07sel) bool {
+	vs, pfx := s.params, "arg"
+	if sel.isRet {
+		vs, pfx = s.results, "ret"
+	}
+	for i, v := range vs {
+		n := pfx
+		if i > 0 {
+			n += itoa(i)
+		}
+		if v.name == "" && n == sel.name {
+			return true
+		}
+	}
+	return false
 }
 
 // selected variable in the generator's view (nil if the selector is invalid)
@@ -912,17 +1108,38 @@ func (e *c07emitter) emitResolve(s *c07sig, sigToks string, sel c07sel, path []c
 	if e.neg && !c07isNeg(sel, path) {
 		return
 	}
-	res, text := c07run(s.real, sel, path)
+	res, text := c07run(s.real, s.bctx, sel, path)
 	exact := res
 	// a valid path ending at a defined (named) scalar type: left free
+	skipExact := false
 	if v := s.selVar(sel); v != nil {
-		if end := c07walk(v.t, path); end != nil && end.kind == c07Named && end.under().isScalar() {
-			exact = "free"
-			e.stats["free_named_scalar"]++
+		if end := c07walk(v.t, path); end != nil {
+			if (end.kind == c07Named || end.kind == c07Alias) && end.isScalar() {
+				e.stats["valid_scalar_of_defined_or_alias_type"]++
+				if end.kind == c07Alias {
+					e.stats["valid_scalar_of_alias_type"]++
+				}
+			}
+			// which pointer-sized integer kind stands for a pointer is not pinned down by the property: the exact
+			// comparison reads uintptr for any of them (the acceptor's basicFor admits the same three)
+			if end.under().kind == c07Ptr && strings.HasPrefix(res, "ok ") {
+				for _, alt := range []string{" uptr", " uint64"} {
+					if strings.HasSuffix(exact, alt) {
+						exact = strings.TrimSuffix(exact, alt) + " uintptr"
+					}
+				}
+			}
 		}
+	} else if !sel.at && s.isDefaultName(sel) {
+		// Lookup("arg1") for an unnamed variable: go vet knows the variable under this name; the property does not
+		// say whether Lookup finds it (today: no). Judged by the acceptor only.
+		skipExact = true
+		e.stats["lookup_by_default_name"]++
 	}
 	req := sigToks + " " + sel.toks() + " " + c07pathToks(path)
-	e.o.emit("resolve "+req, exact)
+	if !skipExact {
+		e.o.emit("resolve "+req, exact)
+	}
 	acc := res
 	if strings.HasPrefix(res, "ok ") {
 		acc += " " + text
@@ -940,6 +1157,22 @@ func (e *c07emitter) emitResolve(s *c07sig, sigToks string, sel c07sel, path []c
 	}
 	if hasDeref {
 		e.stats["paths_with_deref"]++
+	}
+	if strings.HasPrefix(res, "ok ") {
+		for _, st := range path {
+			if st.kind == "i" && st.i >= 256 {
+				e.stats["ok_index_ge_256"]++
+			}
+			if st.kind == "d" && (st.name == "AL" || st.name == "X0" || st.name == "Y3") {
+				e.stats["ok_deref_non_gp64"]++
+			}
+		}
+		if sel.at && sel.i >= 10 {
+			e.stats["ok_selector_index_ge_10"]++
+		}
+		if s.variadic && !sel.isRet && sel.at && sel.i == len(s.params)-1 {
+			e.stats["ok_variadic_param"]++
+		}
 	}
 }
 
@@ -989,7 +1222,7 @@ func (e *c07emitter) emitSizes(t *c07ty, seen map[string]bool) {
 	e.o.emit("sizes "+key, strings.Join(resp, " "))
 	e.stats["sizes_lines"]++
 	switch t.kind {
-	case c07Ptr, c07Slice, c07Array, c07Named:
+	case c07Ptr, c07Slice, c07Array, c07Named, c07Alias:
 		e.emitSizes(t.elem, seen)
 	case c07Struct:
 		for _, f := range t.fields {
@@ -1002,6 +1235,14 @@ func (e *c07emitter) emitSizes(t *c07ty, seen map[string]bool) {
 func (e *c07emitter) emitSig(g *c07gen, s *c07sig, full bool) {
 	st := s.toks()
 	e.stats["route_"+s.route]++
+	if s.variadic {
+		e.stats["variadic_sigs"]++
+	}
+	for _, t := range s.allTypes() {
+		if t.under().kind == c07Other {
+			e.stats["vars_of_componentless_kind"]++
+		}
+	}
 	e.stats[fmt.Sprintf("params_%d", len(s.params))]++
 	e.stats[fmt.Sprintf("results_%d", len(s.results))]++
 	if !e.neg {
@@ -1046,7 +1287,7 @@ func (e *c07emitter) emitPaths(g *c07gen, s *c07sig, st string, full bool) {
 			for _, p := range ps {
 				end := c07walk(v.t, p)
 				class := "valid_nonscalar"
-				if end != nil && (end.isScalar() || (end.kind == c07Named && end.under().isScalar())) {
+				if end != nil && end.isScalar() {
 					class = "valid_scalar"
 				}
 				e.emitResolve(s, st, sel, p, class)
@@ -1068,7 +1309,7 @@ func (e *c07emitter) emitPaths(g *c07gen, s *c07sig, st string, full bool) {
 					}
 					// sometimes continue after the error (the first error sticks)
 					if g.r.chance(1, 4) {
-						bp = append(bp, pick(g.r, []c07step{{kind: "len"}, {kind: "i", i: 0}, {kind: "f", name: "a"}, {kind: "d", name: "RBX"}, {kind: "real"}}))
+						bp = append(bp, pick(g.r, []c07step{{kind: "len"}, {kind: "i", i: 0}, {kind: "f", name: "a"}, {kind: "d", name: "BX"}, {kind: "real"}}))
 						cl += "_then_more"
 					}
 					e.emitResolve(s, st, sel, bp, cl)
@@ -1133,6 +1374,246 @@ var c07corpus = []string{
 	"func(x [4]uint32)", // regression of F3 (fixed in aab3c52): Index(-1), At(-1) must be errors
 }
 
+// ---------------------------------------------------------------- replay of request lines (corpus, replay files)
+
+type c07parser struct {
+	toks []string
+	pos  int
+}
+
+func (p *c07parser) next() (string, error) {
+	if p.pos >= len(p.toks) {
+		return "", fmt.Errorf("unexpected end of request")
+	}
+	p.pos++
+	return p.toks[p.pos-1], nil
+}
+
+func (p *c07parser) nat() (int, error) {
+	t, err := p.next()
+	if err != nil {
+		return 0, err
+	}
+	n, err := strconv.Atoi(t)
+	if err != nil || n < 0 || n > 1<<20 {
+		return 0, fmt.Errorf("bad count %q", t)
+	}
+	return n, nil
+}
+
+func (p *c07parser) ty() (*c07ty, error) {
+	k, err := p.next()
+	if err != nil {
+		return nil, err
+	}
+	switch k {
+	case "b":
+		b, err := p.next()
+		if err != nil {
+			return nil, err
+		}
+		if c07basicSrc(b) == "?" {
+			return nil, fmt.Errorf("bad basic %q", b)
+		}
+		return &c07ty{kind: c07Basic, basic: b}, nil
+	case "p", "s":
+		e, err := p.ty()
+		if err != nil {
+			return nil, err
+		}
+		if k == "p" {
+			return &c07ty{kind: c07Ptr, elem: e}, nil
+		}
+		return &c07ty{kind: c07Slice, elem: e}, nil
+	case "a":
+		n, err := p.nat()
+		if err != nil {
+			return nil, err
+		}
+		e, err := p.ty()
+		if err != nil {
+			return nil, err
+		}
+		return &c07ty{kind: c07Array, n: n, elem: e}, nil
+	case "t":
+		n, err := p.nat()
+		if err != nil {
+			return nil, err
+		}
+		t := &c07ty{kind: c07Struct}
+		for i := 0; i < n; i++ {
+			name, err := p.next()
+			if err != nil {
+				return nil, err
+			}
+			ft, err := p.ty()
+			if err != nil {
+				return nil, err
+			}
+			t.fields = append(t.fields, c07field{name, ft, false})
+		}
+		return t, nil
+	case "n", "l":
+		name, err := p.next()
+		if err != nil {
+			return nil, err
+		}
+		e, err := p.ty()
+		if err != nil {
+			return nil, err
+		}
+		if k == "l" {
+			return &c07ty{kind: c07Alias, name: name, elem: e}, nil
+		}
+		return &c07ty{kind: c07Named, name: name, elem: e}, nil
+	case "o":
+		o, err := p.next()
+		if err != nil {
+			return nil, err
+		}
+		if _, ok := c07otherSrc[o]; !ok {
+			return nil, fmt.Errorf("bad kind %q", o)
+		}
+		return &c07ty{kind: c07Other, other: o}, nil
+	}
+	return nil, fmt.Errorf("bad type token %q", k)
+}
+
+func (p *c07parser) groups() ([]c07group, []c07var, error) {
+	n, err := p.nat()
+	if err != nil {
+		return nil, nil, err
+	}
+	var gs []c07group
+	var vs []c07var
+	for i := 0; i < n; i++ {
+		k, err := p.nat()
+		if err != nil {
+			return nil, nil, err
+		}
+		var names []string
+		for j := 0; j < k; j++ {
+			nm, err := p.next()
+			if err != nil {
+				return nil, nil, err
+			}
+			names = append(names, nm)
+		}
+		t, err := p.ty()
+		if err != nil {
+			return nil, nil, err
+		}
+		gs = append(gs, c07group{names, t})
+		if k == 0 {
+			vs = append(vs, c07var{"", t})
+		}
+		for _, nm := range names {
+			vs = append(vs, c07var{nm, t})
+		}
+	}
+	return gs, vs, nil
+}
+
+func (p *c07parser) sig() (*c07sig, error) {
+	s := &c07sig{}
+	var err error
+	if s.pgroups, s.params, err = p.groups(); err != nil {
+		return nil, err
+	}
+	if s.rgroups, s.results, err = p.groups(); err != nil {
+		return nil, err
+	}
+	s.real, s.route = s.buildDirect(), "replay"
+	return s, nil
+}
+
+func c07afterColon(t string) string { return t[strings.Index(t, ":")+1:] }
+
+// c07replayLine decodes one request line, runs the REAL code on the decoded input and emits the request(s) afresh
+// (recorded outcomes in the line are ignored).
+func c07replayLine(e *c07emitter, line string) (err error) {
+	defer func() {
+		if r := recover(); r != nil {
+			err = fmt.Errorf("%v", r)
+		}
+	}()
+	fs := strings.Fields(line)
+	if len(fs) == 0 {
+		return nil
+	}
+	p := &c07parser{toks: fs[1:]}
+	switch fs[0] {
+	case "resolve", "accept-resolve":
+		s, err := p.sig()
+		if err != nil {
+			return err
+		}
+		pr, err := p.next()
+		if err != nil {
+			return err
+		}
+		st, err := p.next()
+		if err != nil {
+			return err
+		}
+		sel := c07sel{isRet: pr == "R"}
+		switch {
+		case strings.HasPrefix(st, "at:"):
+			sel.at = true
+			if sel.i, err = strconv.Atoi(c07afterColon(st)); err != nil {
+				return err
+			}
+		case strings.HasPrefix(st, "name:"):
+			sel.name = c07afterColon(st)
+		default:
+			return fmt.Errorf("bad selector %q", st)
+		}
+		n, err := p.nat()
+		if err != nil {
+			return err
+		}
+		var path []c07step
+		for i := 0; i < n; i++ {
+			t, err := p.next()
+			if err != nil {
+				return err
+			}
+			switch {
+			case t == "base" || t == "len" || t == "cap" || t == "real" || t == "imag":
+				path = append(path, c07step{kind: t})
+			case strings.HasPrefix(t, "i:"):
+				v, err := strconv.Atoi(c07afterColon(t))
+				if err != nil {
+					return err
+				}
+				path = append(path, c07step{kind: "i", i: v})
+			case strings.HasPrefix(t, "f:"):
+				path = append(path, c07step{kind: "f", name: c07afterColon(t)})
+			case strings.HasPrefix(t, "d:"):
+				path = append(path, c07step{kind: "d", name: c07afterColon(t)})
+			default:
+				return fmt.Errorf("bad step %q", t)
+			}
+		}
+		e.emitResolve(s, s.toks(), sel, path, "replayed")
+	case "argsize", "accept-argsize", "accept-text":
+		s, err := p.sig()
+		if err != nil {
+			return err
+		}
+		e.emitWhole(s, s.toks())
+	case "sizes":
+		t, err := p.ty()
+		if err != nil {
+			return err
+		}
+		e.emitSizes(t, map[string]bool{})
+	default:
+		e.stats["replay_skipped_"+fs[0]]++
+	}
+	return nil
+}
+
 func init() {
 	register("c07", "gotypes signature layout / component navigation vs model, asmdecl acceptors, go/types sizes", func(args []string) error {
 		f := newStdFlags("c07")
@@ -1148,6 +1629,19 @@ func init() {
 		defer o.close()
 		e := &c07emitter{o: o, stats: map[string]int{}, neg: *neg}
 		g := &c07gen{r: newRng(*f.seed + *chunk*0x51ed27), stats: e.stats}
+		if *f.replay != "" {
+			lines, err := readLines(*f.replay)
+			if err != nil {
+				return err
+			}
+			for _, l := range lines {
+				if err := c07replayLine(e, l); err != nil {
+					return fmt.Errorf("replay %q: %v", l, err)
+				}
+			}
+			e.stats["requests"] = o.count
+			return writeJSON(*f.stats, e.stats)
+		}
 		for _, expr := range c07corpus {
 			sig, err := gotypes.ParseSignature(expr)
 			if err != nil {
